@@ -10,7 +10,8 @@ from core import Check, HarnessError, run_check
 import fakemp
 import gen
 
-DATA = "/repo/tests/data/"
+from core import REPO
+DATA = REPO + "/tests/data/"
 
 
 def make_input(tmp, nrec):
